@@ -116,7 +116,7 @@ def _node_init_view(root_dir, view_name, iters):
     done = set()
     nreads = npaths = 0
     C = contexts(P, view)
-    methods = set(view.methods())
+    methods = set(view.methods()) | rules.class_level_names(P, view.name)
     icls, ifn = view.method("__init__")
     w = Walker(P, view, keep=lambda e: e.kind in ("assign", "guard"), track=_cfg_track, loop_iters=iters)
     init_paths = [st for st in w.paths_of(icls, ifn) if st.status != "raise"]
@@ -220,7 +220,7 @@ def simple_protocols(ctx, P, iters):
     nreads = 0
     for cname, ctors, _ in specs:
         view = P.view(cname)
-        methods = set(view.methods())
+        methods = set(view.methods()) | rules.class_level_names(P, view.name)
         have = None
         # constructor chain: definitely assigned after running the constructors in order
         avail = set()
@@ -250,6 +250,8 @@ def simple_protocols(ctx, P, iters):
         for m in sorted(methods):
             if m in ctors or m.startswith("__"):
                 continue
+            if view.resolve(m) is None:
+                continue        # a class-level attribute, not a method
             cls, fn = view.resolve(m)
             w = Walker(P, view, keep=lambda e: e.kind in ("reads",) or (e.kind == "assign" and not e.d.get("local")), reads=lambda a: a not in methods and a not in avail,
                        inline=lambda ev: True, loop_iters=iters)
